@@ -13,7 +13,7 @@ package main
 //	cl/compile.go  loadFunc            pkg.NewFuncWith(<pos>, ...)        + rec.Def(d.Name, fn.Func)
 //	cl/compile.go  loadImport          name, pos = specName.Name, <pos> / pkg.Types.Name(), <pos>
 //	cl/compile.go  defNames            rec.Def(name, scope.Lookup(name.Name))
-//	cl/recorder.go recordCompositeLit  rec.Type(v.Type, ...) unguarded
+//	cl/recorder.go recordCompositeLit  rec.Type(v.Type, ...) guarded by v.Type != nil (or not)
 //
 // The position expression is classified:  own (name.Pos() of the very identifier), first
 // (v.Names[0].Pos() / v.Pos() of a ValueSpec = its first name), stmt (expr.Pos() of the := statement
